@@ -1385,7 +1385,11 @@ func genEvents(sc *Scenario, r *Rng, p Profile) {
 		}
 		iz = sortDedup(iz, 1)
 		for _, z := range iz {
-			sc.Irr = append(sc.Irr, IrrEvent{DateOfZeit(z), r.Range(1, 60), pickI(r, []int{0, 0, 5, 20, 50})})
+			mm := r.Range(1, 60)
+			if sc.Prop == "C10" && NewRng(mix(mix(sc.Seed, uint64(sc.Index)), uint64(z))).Bool(0.07) {
+				mm = 0 // an entry of 0 mm: nothing to add, the plan goes on
+			}
+			sc.Irr = append(sc.Irr, IrrEvent{DateOfZeit(z), mm, pickI(r, []int{0, 0, 5, 20, 50})})
 		}
 	}
 }
